@@ -1,13 +1,472 @@
 package main
 
-func cmdCheck(args []string) int  { return 2 }
-func cmdReplay(args []string) int { return 2 }
+import (
+	"crypto/sha256"
+	"encoding/json"
+	"flag"
+	"fmt"
+	"os"
+	"path/filepath"
+	"regexp"
+	"runtime"
+	"sort"
+	"strconv"
+	"strings"
+	"time"
+)
 
-type NativeResult struct {
-	Ran, Agreed int
-	Mismatches  []string
+type HarnessSpec struct {
+	Fn       string
+	Quick    map[string]int
+	Thorough map[string]int
+	Witness  []string // rt.Reach ids that must be covered (vacuity guard)
+	Native   bool     // validate path samples and violations against the native build
+	QuickOnly, ThoroughOnly bool
+	MaxSteps int
 }
 
-func ValidateNative(pkg string, res *ExploreResult, extra []Violation) (*NativeResult, error) {
-	return &NativeResult{}, nil
+type CheckSpec struct {
+	ID          string
+	Pkg         string // package dir relative to /repo holding the harness
+	Harnesses   []HarnessSpec
+	Stubs       []string
+	Assumptions []string
+	Outside     []string
+	Bounds      map[string]string
+	TimeoutS    map[string]int
+}
+
+type knownFinding struct {
+	Property string
+	Harness  string
+	ID       string
+	Match    *regexp.Regexp
+	Text     string
+}
+
+func loadKnown() ([]knownFinding, error) {
+	b, err := os.ReadFile(filepath.Join(verifDir, "known_findings.txt"))
+	if err != nil {
+		if os.IsNotExist(err) {
+			return nil, nil
+		}
+		return nil, err
+	}
+	var out []knownFinding
+	for _, line := range strings.Split(string(b), "\n") {
+		line = strings.TrimSpace(line)
+		if !strings.HasPrefix(line, "finding:") {
+			continue
+		}
+		kf := knownFinding{Text: strings.TrimSpace(strings.TrimPrefix(line, "finding:"))}
+		rest := kf.Text
+		// fields: property=… harness=… id=… match=/regex/ then free text
+		for _, f := range strings.Fields(rest) {
+			switch {
+			case strings.HasPrefix(f, "property="):
+				kf.Property = f[len("property="):]
+			case strings.HasPrefix(f, "harness="):
+				kf.Harness = f[len("harness="):]
+			case strings.HasPrefix(f, "id="):
+				kf.ID = f[len("id="):]
+			case strings.HasPrefix(f, "match="):
+				re, err := regexp.Compile(f[len("match="):])
+				if err != nil {
+					return nil, fmt.Errorf("known_findings: bad match regexp %q: %v", f, err)
+				}
+				kf.Match = re
+			}
+		}
+		out = append(out, kf)
+	}
+	return out, nil
+}
+
+func (k knownFinding) matches(prop string, v Violation) bool {
+	if k.Property != prop || (k.Harness != "" && k.Harness != v.Harness) || (k.ID != "" && k.ID != v.ID) {
+		return false
+	}
+	if k.Match != nil && !k.Match.MatchString(inputsString(v.Inputs)) {
+		return false
+	}
+	return true
+}
+
+type replayFile struct {
+	Property string         `json:"property"`
+	Pkg      string         `json:"pkg"`
+	Harness  string         `json:"harness"`
+	Params   map[string]int `json:"params"`
+	Kind     string         `json:"kind"`
+	ID       string         `json:"id"`
+	Detail   string         `json:"detail"`
+	Inputs   []InputRec     `json:"inputs"`
+	Rendered string         `json:"inputs_rendered"`
+	Native   bool           `json:"native"`
+	Outcome  string         `json:"observed_outcome"`
+}
+
+func writeReplay(spec *CheckSpec, hs *HarnessSpec, v Violation, outcome string) (string, error) {
+	rf := replayFile{Property: spec.ID, Pkg: spec.Pkg, Harness: v.Harness, Params: v.Params, Kind: v.Kind, ID: v.ID, Detail: v.Detail, Inputs: v.Inputs, Rendered: inputsString(v.Inputs), Native: hs.Native, Outcome: outcome}
+	b, _ := json.MarshalIndent(rf, "", " ")
+	h := sha256.Sum256(b)
+	dir := filepath.Join(verifDir, "replays")
+	os.MkdirAll(dir, 0o755)
+	path := filepath.Join(dir, fmt.Sprintf("%s-%x.json", spec.ID, h[:6]))
+	return path, os.WriteFile(path, b, 0o644)
+}
+
+func tierParams(h *HarnessSpec, tier string) map[string]int {
+	if tier == "thorough" && h.Thorough != nil {
+		return h.Thorough
+	}
+	return h.Quick
+}
+
+func cmdCheck(args []string) int {
+	fs := flag.NewFlagSet("check", flag.ExitOnError)
+	tier := fs.String("tier", envDefault("VERIF_TIER", "quick"), "quick|thorough")
+	workers := fs.Int("workers", runtime.NumCPU(), "workers")
+	only := fs.String("only", "", "run only this harness")
+	if len(args) < 1 {
+		usage()
+	}
+	id := args[0]
+	fs.Parse(args[1:])
+	spec := findSpec(id)
+	if spec == nil {
+		fmt.Fprintf(os.Stderr, "no check for %s\n", id)
+		return 2
+	}
+	seed, _ := strconv.ParseInt(envDefault("VERIF_SEED", "0"), 10, 64)
+	start := time.Now()
+	known, err := loadKnown()
+	if err != nil {
+		fmt.Fprintln(os.Stderr, err)
+		return 2
+	}
+	ev := newEvidence(spec, *tier, seed)
+	fail := func(msg string) int {
+		ev.Coverage["inconclusive"] = msg
+		ev.WallS = time.Since(start).Seconds()
+		ev.write()
+		fmt.Printf("INCONCLUSIVE property=%s %s\n", spec.ID, msg)
+		return 2
+	}
+	prog, err := loadProgram([]string{spec.Pkg})
+	if err != nil {
+		return fail("cannot load /repo with harness overlay: " + truncStr(err.Error(), 2000))
+	}
+	ev.Coverage["load_s"] = time.Since(start).Seconds()
+	timeout := 600
+	if t, ok := spec.TimeoutS[*tier]; ok {
+		timeout = t
+	}
+	deadline := start.Add(time.Duration(timeout) * time.Second)
+	var problems []string
+	violations := 0
+	knownHits := 0
+	for i := range spec.Harnesses {
+		hs := &spec.Harnesses[i]
+		if *only != "" && hs.Fn != *only {
+			continue
+		}
+		if (*tier == "quick" && hs.ThoroughOnly) || (*tier == "thorough" && hs.QuickOnly) {
+			continue
+		}
+		entry := prog.Func(targetModule+"/"+spec.Pkg, hs.Fn)
+		if entry == nil {
+			problems = append(problems, "harness function missing: "+hs.Fn)
+			continue
+		}
+		params := tierParams(hs, *tier)
+		res := Explore(prog, ExploreConfig{Harness: hs.Fn, Entry: entry, Params: params, Workers: *workers, Deadline: deadline,
+			SolverMs: 30000, KeepPaths: 40, Seed: seed, MaxViol: 3, MaxSteps: hs.MaxSteps})
+		printResult(res, false)
+		ev.addHarness(res)
+		if res.Incomplete != "" {
+			problems = append(problems, hs.Fn+": "+res.Incomplete)
+		}
+		for _, e := range res.EngineErrs {
+			problems = append(problems, hs.Fn+": engine: "+truncStr(e, 600))
+		}
+		if n := res.Outcomes["unsupported"]; n > 0 {
+			problems = append(problems, fmt.Sprintf("%s: %d paths hit unsupported constructs, e.g. %s", hs.Fn, n, strings.Join(res.Unsupported, "; ")))
+		}
+		if n := res.Outcomes["unwind"]; n > 0 {
+			problems = append(problems, fmt.Sprintf("%s: %d paths hit the unwinding bound: %s", hs.Fn, n, strings.Join(res.Unwinds, "; ")))
+		}
+		if res.Unknowns > 0 {
+			problems = append(problems, fmt.Sprintf("%s: %d solver queries returned unknown", hs.Fn, res.Unknowns))
+		}
+		for _, w := range hs.Witness {
+			if res.Reached[w] == 0 {
+				problems = append(problems, fmt.Sprintf("%s: vacuity: witness %q never reached", hs.Fn, w))
+			}
+		}
+		// confirm violations and validate the translator
+		if hs.Native {
+			nv, err := ValidateNative(spec.Pkg, res, nil)
+			if err != nil {
+				problems = append(problems, hs.Fn+": native replay failed: "+truncStr(err.Error(), 1500))
+			} else {
+				ev.NativeRan += nv.Ran
+				ev.NativeAgreed += nv.Agreed
+				nSamples := len(res.Samples)
+				for _, mm := range nv.Mismatches {
+					problems = append(problems, hs.Fn+": symbolic/native disagreement: "+truncStr(mm, 600))
+				}
+				if len(nv.Mismatches) == 0 {
+					for j := range res.Violations {
+						res.Violations[j].Confirmed = true
+						if nSamples+j < len(nv.Lines) {
+							res.Violations[j].Native = nv.Lines[nSamples+j]
+						}
+					}
+				}
+			}
+		} else {
+			for j := range res.Violations {
+				ok, out := ConfirmConcrete(prog, entry, hs, res.Violations[j])
+				res.Violations[j].Confirmed = ok
+				res.Violations[j].Native = out
+				ev.NativeRan++
+				if ok {
+					ev.NativeAgreed++
+				} else {
+					problems = append(problems, hs.Fn+": counterexample did not reproduce under concrete re-execution: "+out)
+				}
+			}
+		}
+		for _, v := range res.Violations {
+			if !v.Confirmed {
+				continue
+			}
+			isKnown := false
+			for _, k := range known {
+				if k.matches(spec.ID, v) {
+					isKnown = true
+					fmt.Printf("KNOWN-FINDING: property=%s %s\n", spec.ID, k.Text)
+					knownHits++
+					break
+				}
+			}
+			if isKnown {
+				continue
+			}
+			path, err := writeReplay(spec, hs, v, v.Native)
+			if err != nil {
+				problems = append(problems, "cannot write replay: "+err.Error())
+				continue
+			}
+			violations++
+			fmt.Printf("VIOLATION property=%s replay=%s\n", spec.ID, path)
+			fmt.Printf("  harness=%s %s/%s %s inputs: %s\n", v.Harness, v.Kind, v.ID, v.Detail, inputsString(v.Inputs))
+			ev.ViolationList = append(ev.ViolationList, fmt.Sprintf("%s %s/%s %s inputs: %s", v.Harness, v.Kind, v.ID, v.Detail, inputsString(v.Inputs)))
+		}
+	}
+	ev.Violations = violations
+	ev.Coverage["known_findings_hit"] = knownHits
+	ev.WallS = time.Since(start).Seconds()
+	if violations > 0 {
+		ev.Coverage["exhaustive"] = false
+		ev.write()
+		return 1
+	}
+	if len(problems) > 0 {
+		return fail(strings.Join(problems, " | "))
+	}
+	ev.Coverage["exhaustive"] = true
+	ev.write()
+	fmt.Printf("OK property=%s tier=%s paths=%d queries=%d wall=%.1fs\n", spec.ID, *tier, ev.States, ev.Queries, ev.WallS)
+	return 0
+}
+
+// ---------- evidence ----------
+
+type evidence struct {
+	spec          *CheckSpec
+	PropertyID    string
+	Tier          string
+	Seed          int64
+	Coverage      map[string]interface{}
+	States        int
+	Transitions   int
+	Queries       int
+	SolverS       float64
+	NativeRan     int
+	NativeAgreed  int
+	Violations    int
+	ViolationList []string
+	WallS         float64
+	samples       []interface{}
+	funcs         map[string]bool
+	harnesses     []interface{}
+}
+
+func newEvidence(spec *CheckSpec, tier string, seed int64) *evidence {
+	return &evidence{spec: spec, PropertyID: spec.ID, Tier: tier, Seed: seed, Coverage: map[string]interface{}{}, funcs: map[string]bool{}}
+}
+
+func (e *evidence) addHarness(r *ExploreResult) {
+	e.States += r.Paths
+	e.Transitions += r.Decisions
+	e.Queries += r.Solver.Queries
+	e.SolverS += r.Solver.Time.Seconds()
+	for f := range r.Funcs {
+		if strings.Contains(f, "/internal/verifrt.") {
+			continue
+		}
+		e.funcs[f] = true
+	}
+	n := 0
+	for _, s := range r.Samples {
+		if n >= 6 {
+			break
+		}
+		n++
+		e.samples = append(e.samples, map[string]interface{}{"harness": r.Harness, "outcome": s.Outcome, "inputs": inputsString(s.Inputs), "observed": s.Obs})
+	}
+	e.harnesses = append(e.harnesses, map[string]interface{}{
+		"harness": r.Harness, "params": r.Params, "paths": r.Paths, "outcomes": r.Outcomes, "decisions": r.Decisions,
+		"ssa_steps": r.Steps, "max_decision_depth": r.MaxDepth, "witnesses_reached": r.Reached,
+		"queries": map[string]int{"total": r.Solver.Queries, "sat": r.Solver.Sat, "unsat": r.Solver.Unsat, "unknown": r.Solver.Unknown, "feasibility": r.FeasQ, "assertion": r.AssertQ},
+		"solver_time_s": r.Solver.Time.Seconds(), "slowest_query_s": r.Solver.SlowQuery.Seconds(), "wall_s": r.Wall.Seconds(),
+		"fmt_approximations": r.FmtApprox, "incomplete": r.Incomplete, "violations_found": len(r.Violations),
+	})
+}
+
+func (e *evidence) write() {
+	var fns []string
+	for f := range e.funcs {
+		fns = append(fns, f)
+	}
+	sort.Strings(fns)
+	cov := e.Coverage
+	states, trans := e.States, e.Transitions
+	if states < 1 {
+		states = 1
+	}
+	if trans < 1 {
+		trans = 1
+	}
+	cov["states"] = states
+	cov["transitions"] = trans
+	cov["traces_validated_against_impl"] = e.NativeAgreed
+	cov["traces_replayed"] = e.NativeRan
+	if len(e.samples) == 0 {
+		e.samples = append(e.samples, "no path completed")
+	}
+	cov["samples"] = e.samples
+	cov["functions_encoded"] = fns
+	cov["harnesses"] = e.harnesses
+	cov["queries_discharged"] = e.Queries
+	cov["solver_time_s"] = e.SolverS
+	cov["solver"] = "z3 4.8.12 (one incremental process per worker, (set-logic ALL))"
+	cov["bounds"] = e.spec.Bounds[e.Tier]
+	cov["stubs"] = e.spec.Stubs
+	cov["outside_claim"] = e.spec.Outside
+	cov["rule"] = "states = feasible symbolic paths of the real functions' go/ssa form explored to completion; transitions = branch/value decisions on symbolic conditions; every decision's other side was either explored or refuted (unsat) by the solver"
+	if e.ViolationList != nil {
+		cov["violation_list"] = e.ViolationList
+	}
+	out := map[string]interface{}{
+		"property_id": e.PropertyID,
+		"tier":        e.Tier,
+		"seed":        e.Seed,
+		"level":       "model_checking",
+		"coverage":    cov,
+		"assumptions": e.spec.Assumptions,
+		"wall_s":      e.WallS,
+		"violations":  e.Violations,
+	}
+	if e.spec.Assumptions == nil {
+		out["assumptions"] = []string{}
+	}
+	b, _ := json.MarshalIndent(out, "", " ")
+	dir := filepath.Join(verifDir, "evidence")
+	os.MkdirAll(dir, 0o755)
+	os.WriteFile(filepath.Join(dir, e.PropertyID+".json"), b, 0o644)
+}
+
+// ---------- replay ----------
+
+func cmdReplay(args []string) int {
+	if len(args) < 1 {
+		usage()
+	}
+	b, err := os.ReadFile(args[0])
+	if err != nil {
+		fmt.Fprintln(os.Stderr, err)
+		return 2
+	}
+	var rf replayFile
+	if err := json.Unmarshal(b, &rf); err != nil {
+		fmt.Fprintln(os.Stderr, err)
+		return 2
+	}
+	want := "panic"
+	if rf.Kind == "assert" {
+		want = "assert:" + rf.ID
+	}
+	if rf.Native {
+		nv, err := RunNative(rf.Pkg, []ReplayRec{{Harness: rf.Harness, Params: rf.Params, Inputs: rf.Inputs, Outcome: want}})
+		if err != nil {
+			fmt.Fprintln(os.Stderr, err)
+			return 2
+		}
+		fmt.Printf("native replay of %s (%s) inputs %s:\n  %v\n", rf.Harness, rf.Property, rf.Rendered, nv.Lines)
+		if nv.Agreed == 1 {
+			fmt.Printf("VIOLATION property=%s replay=%s\n", rf.Property, args[0])
+			return 1
+		}
+		fmt.Println("violation did not reproduce")
+		return 0
+	}
+	prog, err := loadProgram([]string{rf.Pkg})
+	if err != nil {
+		fmt.Fprintln(os.Stderr, err)
+		return 2
+	}
+	entry := prog.Func(targetModule+"/"+rf.Pkg, rf.Harness)
+	if entry == nil {
+		fmt.Fprintln(os.Stderr, "harness not found")
+		return 2
+	}
+	ok, out := ConfirmConcrete(prog, entry, &HarnessSpec{Fn: rf.Harness}, Violation{ID: rf.ID, Kind: rf.Kind, Inputs: rf.Inputs, Params: rf.Params, Harness: rf.Harness})
+	fmt.Printf("concrete re-execution of %s (%s) inputs %s:\n  %s\n", rf.Harness, rf.Property, rf.Rendered, out)
+	if ok {
+		fmt.Printf("VIOLATION property=%s replay=%s\n", rf.Property, args[0])
+		return 1
+	}
+	fmt.Println("violation did not reproduce")
+	return 0
+}
+
+// ConfirmConcrete re-executes the harness with every input fixed to the
+// model's value (no solver involvement in control flow) and checks that the
+// same assertion fails / the same panic occurs.
+func ConfirmConcrete(prog *Program, entry interface{ String() string }, hs *HarnessSpec, v Violation) (bool, string) {
+	ex := NewExec(prog, 30000)
+	defer ex.Close()
+	ex.params = v.Params
+	ex.harness = v.Harness
+	vals := make([]uint64, len(v.Inputs))
+	for i, in := range v.Inputs {
+		vals[i] = in.Val
+	}
+	ex.fixed = vals
+	fn := prog.Func(entryPkg(entry.String()), v.Harness)
+	pr := ex.RunPath(fn, WorkItem{})
+	for _, pv := range pr.Viol {
+		if pv.ID == v.ID && pv.Kind == v.Kind {
+			return true, fmt.Sprintf("reproduced: %s/%s %s (path outcome %s)", pv.Kind, pv.ID, pv.Detail, pr.Outcome)
+		}
+	}
+	return false, fmt.Sprintf("not reproduced: outcome=%s %s", pr.Outcome, pr.Detail)
+}
+
+func entryPkg(full string) string {
+	i := strings.LastIndex(full, ".")
+	return full[:i]
 }
